@@ -85,6 +85,7 @@ type accessRec struct {
 }
 
 type Exec struct {
+	rangeFn string // function executing the current range instruction
 	prog   *ssa.Program
 	tc     *TermCtx
 	job    *Job
@@ -868,6 +869,7 @@ func (ex *Exec) visit(fr *frame, instr ssa.Instruction) continuation {
 		mt := instr.Type().Underlying().(*types.Map)
 		fr.env[instr] = &mapV{kt: mt.Key(), id: ex.nextID}
 	case *ssa.Range:
+		ex.rangeFn = fr.fn.String()
 		fr.env[instr] = ex.rangeIter(fr.get(instr.X), instr.X.Type())
 	case *ssa.Next:
 		fr.env[instr] = ex.iterNext(fr.get(instr.Iter).(*iterV), instr)
